@@ -1728,6 +1728,12 @@ func (p *parser) captureKeyForObjectRest(originalKey js_ast.Expr) (finalKey js_a
 	case *js_ast.EString:
 		capturedKey = func() js_ast.Expr { return js_ast.Expr{Loc: loc, Data: &js_ast.EString{Value: k.Value}} }
 
+	case *js_ast.ENameOfSymbol:
+		// A mangled property name is a string constant too
+		capturedKey = func() js_ast.Expr {
+			return js_ast.Expr{Loc: loc, Data: &js_ast.ENameOfSymbol{Ref: k.Ref, HasPropertyKeyComment: k.HasPropertyKeyComment}}
+		}
+
 	case *js_ast.ENumber:
 		// Emit it as the number plus a string (i.e. call toString() on it).
 		// It's important to do it this way instead of trying to print the
